@@ -65,7 +65,7 @@ inline Op parseOp(const mj::Value& o) {
 
 // strings handed to the library "by address" must outlive every document
 inline const char* intern(const std::string& s) {
-  static std::set<std::string> pool;
+  static thread_local std::set<std::string> pool;
   return pool.insert(s).first->c_str();
 }
 
@@ -202,9 +202,11 @@ struct World {
   std::vector<std::unique_ptr<JsonDocument>> docs;
   std::vector<JsonVariant> refs;
 
-  World(int ndocs, int nrefs) : nd(ndocs), nr(nrefs) {
+  // defaultAllocator: the documents use the process-wide DefaultAllocator (C20: shared by all threads)
+  World(int ndocs, int nrefs, bool defaultAllocator = false) : nd(ndocs), nr(nrefs) {
     for (int d = 0; d < nd; d++) allocs.emplace_back(new VerifAllocator(d + 1));
-    for (int d = 0; d < nd; d++) docs.emplace_back(new JsonDocument(allocs[d].get()));
+    for (int d = 0; d < nd; d++)
+      docs.emplace_back(defaultAllocator ? new JsonDocument() : new JsonDocument(allocs[d].get()));
     refs.resize(nr);
   }
   ~World() {
